@@ -11,6 +11,7 @@ import (
 	"fmt"
 	"io"
 	"log/slog"
+	"reflect"
 	"runtime"
 	"strconv"
 	"strings"
@@ -381,6 +382,17 @@ func payloadIndex(pl kmip.OperationPayload) (int, int32) {
 	return -1, -1
 }
 
+// lookupPayload: pointer payloads only (anything else is not hashable in general and cannot be one of ours).
+func lookupPayload(pl kmip.OperationPayload) (payloadRef, bool) {
+	if pl == nil || reflect.ValueOf(pl).Kind() != reflect.Pointer {
+		return payloadRef{}, false
+	}
+	if ref, ok := payloadReg.Load(pl); ok {
+		return ref.(payloadRef), true
+	}
+	return payloadRef{}, false
+}
+
 func parseIdxSerial(s string) (int, int32) {
 	var i, ser int
 	if _, err := fmt.Sscanf(s, "item-%d-of-%d", &i, &ser); err == nil {
@@ -392,8 +404,8 @@ func parseIdxSerial(s string) (int, int32) {
 func (scriptHandler) HandleOperation(ctx context.Context, pl kmip.OperationPayload) (kmip.OperationPayload, error) {
 	var st *reqState
 	idx := -1
-	if ref, ok := payloadReg.Load(pl); ok && pl != nil {
-		st, idx = ref.(payloadRef).st, ref.(payloadRef).idx
+	if ref, ok := lookupPayload(pl); ok {
+		st, idx = ref.st, ref.idx
 	} else {
 		var serial int32
 		idx, serial = payloadIndex(pl)
